@@ -221,7 +221,7 @@ def run(ctx):
         return cases
 
     errs = []
-    with ThreadPoolExecutor(max_workers=ncpu) as ex:
+    with ThreadPoolExecutor(max_workers=ncpu if quick else 2) as ex:      # (thorough: the two MC runs have two workers each)
         f_mc = [ex.submit(mc, f'KVIndex.MC_{tier}.cfg'), ex.submit(mc, f'KVIndex.MCurm_{tier}.cfg')]
         f_lead = [ex.submit(lead, item) for item in LEADS]
         mcs, lead_res = [], []
